@@ -7,6 +7,7 @@ CONSTANTS
   Takes <- TakesQuick
   Shapes <- ShapesQuick
   XKs <- XKsQuick
+  Plan <- PlanAll
 INVARIANT CountOK
 INVARIANT SampleOK
 INVARIANT BestIsLabel
@@ -15,5 +16,6 @@ INVARIANT BestIsLabelR
 INVARIANT SameActions
 INVARIANT ContextIsRowWithoutLabel
 INVARIANT OracleTotal
+INVARIANT EveryReadAlike
 INVARIANT Emit
 CHECK_DEADLOCK FALSE
